@@ -1,40 +1,84 @@
-"""./check benign : behaviour-preserving variants must not trip any rule (false-alarm guard)."""
+"""./check benign [name-substring...] : behaviour-preserving variants must not trip any rule (false-alarm guard).
+
+Every patch under /verif/benign is applied to a scratch copy of /repo (analysis only; nothing is
+built or run) and the quick analysis of the properties named in its `# properties:` header (all 20
+when the header says `all` or is missing) must report nothing that the unchanged tree does not report.
+A patch may also be given by path (evaluation of a candidate before it is stored)."""
 import glob, os, re, shutil, subprocess, sys
+import concurrent.futures as cf
 HERE = os.path.dirname(os.path.abspath(__file__)); VERIF = os.path.dirname(HERE)
 sys.path.insert(0, HERE)
+ALL = ["C%02d" % i for i in range(1, 21)]
+
+
+def header_props(p):
+    for line in open(p, errors="replace"):
+        m = re.match(r"#\s*properties:\s*(.*)", line)
+        if m:
+            v = m.group(1).split()
+            return ALL if v == ["all"] else v
+        if line.startswith("diff "):
+            break
+    return ALL
+
+
+def _viols(a):
+    props, repo = a
+    import check, cast
+    cast._cache.clear()
+    res = check.analyse_many(props, repo or check.REPO)
+    cast._cache.clear()
+    return repo, {prop: [o for o in obls if o["status"] in ("violation", "undecided")] for prop, obls in res.items()}
+
 
 def main(argv):
-    import check, selftest, cast
+    import check, selftest
     check.build_tool()
-    bad = 0
-    base = {}
-    for p in sorted(glob.glob(os.path.join(VERIF, "benign", "*.patch"))):
-        if argv and not any(a in p for a in argv):
-            continue
-        props = []
-        for line in open(p):
-            m = re.match(r"#\s*properties:\s*(.*)", line)
-            if m:
-                props = m.group(1).split()
+    patches = []
+    for a in argv:
+        if os.path.isfile(a):
+            patches.append(os.path.abspath(a))
+    if not patches:
+        patches = [p for p in sorted(glob.glob(os.path.join(VERIF, "benign", "*.patch")) + glob.glob(os.path.join(VERIF, "benign", "*", "*.diff")))
+                   if not argv or any(a in p for a in argv)]
+    scratch = {}
+    stale = []
+    for p in patches:
         d, dst = selftest.scratch_copy()
-        try:
+        r = subprocess.run(["git", "apply", "--unsafe-paths", "--directory=" + dst, p], cwd="/", stdout=subprocess.PIPE, stderr=subprocess.STDOUT, text=True)
+        if r.returncode != 0:
             r = subprocess.run(["patch", "-p1", "-s", "-i", p], cwd=dst, stdout=subprocess.PIPE, stderr=subprocess.STDOUT, text=True)
-            if r.returncode != 0:
-                print("STALE    %s (does not apply: %s)" % (os.path.basename(p), r.stdout.strip()[:80]))
-                continue
-            for prop in props:
-                if prop not in base:
-                    obls, _, _, _ = check.analyse(prop, "quick")
-                    base[prop] = {(o["rule"], o["key"]) for o in obls if o["status"] in ("violation", "undecided")}
-                cast._cache.clear()
-                obls, _, _, _ = check.analyse(prop, "quick", repo=dst)
-                cast._cache.clear()
-                new = [o for o in obls if o["status"] in ("violation", "undecided") and (o["rule"], o["key"]) not in base[prop]]
-                if new:
-                    bad += 1
-                    print("FALSE-ALARM %s on %s: %s" % (prop, os.path.basename(p), "; ".join("%s %s: %s" % (o["rule"], o["key"], o["detail"][:160]) for o in new[:4])))
+        if r.returncode != 0:
+            stale.append(p)
+            print("STALE    %s (does not apply: %s)" % (os.path.relpath(p, VERIF), r.stdout.strip()[:80]))
+            shutil.rmtree(d, ignore_errors=True)
+            continue
+        scratch[p] = (d, dst)
+    bad = len(stale)
+    try:
+        need = sorted({prop for p in scratch for prop in header_props(p)})
+        workers = int(os.environ.get("VERIF_JOBS", "6"))
+        with cf.ProcessPoolExecutor(max_workers=workers) as ex:
+            tasks = [(need, None)] + [(header_props(p), scratch[p][1]) for p in scratch]
+            by_repo = {scratch[p][1]: p for p in scratch}
+            res, base = {}, {}
+            for repo, r in ex.map(_viols, tasks):
+                if repo is None:
+                    base = {prop: {(o["rule"], o["key"]) for o in v} for prop, v in r.items()}
                 else:
-                    print("quiet    %s on %s" % (prop, os.path.basename(p)))
-        finally:
+                    res[by_repo[repo]] = r
+            for p in res:
+                res[p] = {prop: [o for o in v if (o["rule"], o["key"]) not in base[prop]] for prop, v in res[p].items()}
+        for p in scratch:
+            name = os.path.relpath(p, VERIF) if p.startswith(VERIF) else p
+            alarms = {prop: v for prop, v in res.get(p, {}).items() if v}
+            if not alarms:
+                print("quiet    %s (%s)" % (name, " ".join(header_props(p)) if len(header_props(p)) < 20 else "all 20 properties"))
+                continue
+            bad += 1
+            for prop, v in sorted(alarms.items()):
+                print("FALSE-ALARM %s on %s: %s" % (prop, name, "; ".join("%s %s: %s" % (o["rule"], o["key"], o["detail"][:200]) for o in v[:5])))
+    finally:
+        for d, _ in scratch.values():
             shutil.rmtree(d, ignore_errors=True)
     return 1 if bad else 0
